@@ -1306,6 +1306,12 @@ def stepCopy (cfg : Config) (s : St) (id : Nat) (src : Nat) : St × Obs :=
         | none => (s, .skip "unsupported"))
    | none => (s, .bad))
 
+/-- the Box points to an object that has been released -/
+def St.danglingBox (s : St) (o : Obj) : Bool :=
+  match o.body with
+  | .box (some x) => !s.isLive x
+  | _ => false
+
 /-- **which freeing calls on a whole live object the histories leave out** (both sides print `skip <why>` and the state is
     unchanged), and why:
     * `"misuse"` — a raw release (`dealloc`, `dealloc_raw`, `dealloc_root`, `del_raw`, `destruct`) of an object the collector
@@ -1315,13 +1321,17 @@ def stepCopy (cfg : Config) (s : St) (id : Nat) (src : Nat) : St × Obs :=
       the destructor again;
     * `"misuse"` — any release of a run-time Type object while objects or containers of that type are alive;
     * `"referenced"` — the release of a heap object that is an item of a live Tuple: the next mark phase dereferences the
-      dangling item (known finding KF-C01-dangling-tuple-item, property C01).
-    Everything else — every freeing operation on every stack, static and embedded object included — is executed. -/
+      dangling item (known finding KF-C01-dangling-tuple-item, property C01);
+    * `"dangling"` — `dealloc` / `dealloc_raw` / `dealloc_root` of a Box that is not on the heap and whose pointee was released
+      behind its back (by a `del` or a collector run the program asked for): the message of the refusal shows the Box and,
+      through Box_Show, the released pointee — the caller's dangling pointer, not a fault of the refusal.
+    Everything else — every freeing operation on every other stack, static and embedded object included — is executed. -/
 def St.freeSkip (cfg : Config) (s : St) (f : FreeOp) (id : Nat) (o : Obj) : Option String :=
   if !f.viaCollector && s.isReg id then some "misuse"
   else if f == .destruct && o.hdr.alloc == cfg.cHeap then some "misuse"
   else if s.isTypeInUse id then some "misuse"
   else if o.hdr.alloc == cfg.cHeap && s.referenced id then some "referenced"
+  else if (f == .dealloc || f == .deallocRaw || f == .deallocRoot) && o.hdr.alloc != cfg.cHeap && s.danglingBox o then some "dangling"
   else none
 
 def stepFree (cfg : Config) (s : St) (f : FreeOp) (t : Target) : St × Obs :=
